@@ -116,3 +116,35 @@ Proof.
   - apply sm_del_notin. exact W.
   - intros b N. apply sm_del_other. congruence.
 Qed.
+
+Ltac eval_lit_eqb := repeat match goal with |- context [String.eqb ?a ?b] => is_ground a; is_ground b; let v := eval vm_compute in (String.eqb a b) in change (String.eqb a b) with v end; lazy beta iota.
+
+(* what a successful CreateStateMachine stores is what DescribeStateMachine hands back: the definition unchanged *)
+Theorem create_then_describe s q arn created :
+  action q = "CreateStateMachine" -> snd (api_step s q) = ROk (JObj [("creationDate", created); ("stateMachineArn", JStr arn)]) ->
+  exists r d, sm_find arn (sms (fst (api_step s q))) = Some r /\ check_definition q = Some d /\ sm_def r = d /\
+              forall q2, action q2 = "DescribeStateMachine" -> p q2 "stateMachineArn" = Some (JStr arn) -> valid_states_arn "stateMachine" arn = true ->
+                         snd (api_step (fst (api_step s q)) q2) = ROk (sm_describe r (dumps_or d)).
+Proof.
+  intros A Hs. destruct (api_step s q) as [s' resp] eqn:E. cbn [fst snd] in *. subst resp. revert E.
+  unfold api_step. rewrite A. destruct (params q) eqn:Ep; [|intros E0; discriminate E0].
+  eval_lit_eqb.
+  destruct (p q "name") as [[| | | |name| |]|]; try (intros E0; discriminate E0).
+  destruct (negb (valid_name_aio name)); [intros E0; discriminate E0|].
+  destruct (p q "roleArn") as [[| | | |role| |]|]; try (intros E0; discriminate E0).
+  destruct (negb (valid_role_arn role)); [intros E0; discriminate E0|]. destruct (role_account role) as [acct|]; [|intros E0; discriminate E0].
+  set (arn0 := "arn:aws:states:" ++ region ++ ":" ++ acct ++ ":stateMachine:" ++ name).
+  destruct (match p q "type" with None => Some "STANDARD" | Some (JStr t) => if (t =? "STANDARD") || (t =? "EXPRESS") then Some t else None | Some _ => None end) as [ty|]; [|intros E0; discriminate E0].
+  destruct (sm_find arn0 (sms s)); [intros E0; discriminate E0|].
+  destruct (p q "definition") as [[| | | |dtext| |]|] eqn:Ed0; try (intros E0; discriminate E0).
+  all: destruct (check_definition q) as [d|] eqn:Ed; [|intros E0; discriminate E0]; destruct (negb (truthy d)); [intros E0; discriminate E0|].
+  all: destruct (if negb (with_logging q) then Some [] else match p q "loggingConfiguration" with None => Some [] | Some (JObj lc) => Some lc | Some _ => None end) as [lc|]; [|intros E0; discriminate E0].
+  all: destruct (check_logging lc) as [lc'|]; [|intros E0; discriminate E0]; intros E0; inversion E0; subst; clear E0.
+  all: set (r0 := {| sm_arn := arn0; sm_name := name; sm_role := role; sm_def := d; sm_log := if with_logging q then JObj lc' else JNull; sm_type := ty; sm_created := now q; sm_updated := now q |}).
+  all: exists r0, d; cbn [sms]; split; [apply (sm_find_put_same r0)|]; split; [reflexivity|]; split; [reflexivity|].
+  all: intros q2 A2 P2 V2; unfold api_step; rewrite A2.
+  all: destruct (params q2) eqn:E2; [|unfold p in P2; rewrite E2 in P2; discriminate].
+  all: eval_lit_eqb; rewrite (sm_arn_param_str q2 _ _ arn0 P2).
+  all: assert (truthy (JStr arn0) = true) as -> by (unfold valid_states_arn in V2; destruct arn0; [cbn in V2; discriminate|reflexivity]).
+  all: cbn [negb]; rewrite V2; cbn [fst sms]; pose proof (sm_find_put_same r0 (sms s)) as F; cbn [sm_arn r0] in F; rewrite F; reflexivity.
+Qed.
